@@ -69,6 +69,28 @@ def run(ctx):
         hist.append(("bool", 8, 0, 1, ["H", "X%d" % ((1 << 24) - 1), "Z", "F", "D"]))
     lines = ["cops %s %d %d %d %s" % (dt, lv, od, g, " ".join(ops)) for (dt, lv, od, g, ops) in hist]
     ans = C.harness(lines, timeout=1800, mem_kb=16 * 1024 * 1024)
+    # the Lean compressor model on the same histories, chunk training answers taken from the observed metadata
+    if ctx.model_ok:
+        mlines, midx = [], []
+        for i, ((dt, lv, od, g, ops), a) in enumerate(zip(hist, ans)):
+            if any(o[0] == "X" for o in ops) or "panic" in a:
+                continue
+            toks = D.split_tokens(a)
+            mops = []
+            for op, (body, _) in zip(ops, toks):
+                if op[0] == "C":
+                    mops.append(op + "#" + (body[len("ok meta "):].replace(" ", "~") if body.startswith("ok meta ") else "-"))
+                else:
+                    mops.append(op)
+            mlines.append("cops %s %d %d %d %s" % (dt, lv, od, g, " ".join(mops)))
+            midx.append(i)
+        for i, m in zip(midx, C.driver(mlines)):
+            ctx.count("model-compared")
+            ta, tm = D.split_tokens(ans[i]), D.split_tokens(m)
+            ta = [("ok meta ?", k) if (b.startswith("ok meta") and hist[i][4][j] == "E") else (b, k) for j, (b, k) in enumerate(ta)]
+            if ta != tm:
+                j = next((j for j in range(min(len(ta), len(tm))) if ta[j] != tm[j]), min(len(ta), len(tm)))
+                ctx.disagree("cops", lines[i][:400], "op %d: %s" % (j, str(tm[j:j + 1])[:300]), "op %d: %s" % (j, str(ta[j:j + 1])[:300]))
     dec_lines, dec_info = [], []
     for (dt, lv, od, g, ops), line, a in zip(hist, lines, ans):
         toks = D.split_tokens(a)
